@@ -56,6 +56,9 @@ func (e *retryEngine) Gen(rng *rand.Rand, tier string, n int, emit func(string))
 	emit("t1a0c1 P la,si start dial+:10 ack+:0 pub:1:1" + tail)                                                                                 // D6: silent broker on a retransmission
 	emit("t1a0c0 P ok,wf,la,ok,si pub:1:2 sub:61.2 start pub:2:0 pub:3:0 dial- pub:4:0 unsub:61 dial+:40000 pub:5:1 dial+:40100 ack+:1" + tail) // D22: queued Subscribe times out, later Unsubscribe overtakes it
 	emit("t1a0c0 P si,ok start dial+:10 ack+:0 close sub:61.1 unsub:61" + tail)                                                                 // D22 minimal
+	emit("t0a0c0 P ok,ok,la start dial+:10 ack+:0 sub:61.1 sub:62.1 close dial+:20 ack+:0" + tail)            // re-subscription of the first of two filters interrupted, then the session is kept
+	emit("t0a0c0 P ok,ok,ok,lr start dial+:10 ack+:0 sub:61.1 sub:62.2 sub:632f23.0 close dial+:20 ack+:0" + tail)
+	emit("t0a1c0 P ok,ok,wf start dial+:10 ack+:0 sub:61.1,62.0 sub:62.1 close dial+:20 ack+:1" + tail)        // AlwaysResubscribe, interrupted
 	emit("t1a0c1 P si start dial+:10 ack+:0 pub:1:2" + tail)
 	emit("t1a0c1 P ok,si start dial+:10 ack+:0 pub:1:2" + tail)
 	emit("t1a0c1 P si start dial+:10 ack+:0 sub:61.1,62.0" + tail)
@@ -88,6 +91,10 @@ func (e *retryEngine) Gen(rng *rand.Rand, tier string, n int, emit func(string))
 						}
 						if nf >= 1 && nf <= 2 && prefix[len(prefix)-1] != "ok" {
 							emit(fmt.Sprintf("t0a0c1 %s %s start dial+:10 ack+:0 %s%s", method, strings.Join(prefix, ","), strings.Join(h, " "), tail))
+							if strings.Contains(strings.Join(h, " "), "sub:") && method == "P" {
+								// the same plan with the session lost on the first two reconnects: faults hit the re-subscription pass
+								emit(fmt.Sprintf("t0a0c0 %s %s start dial+:10 ack+:0 %s close%s", method, strings.Join(prefix, ","), strings.Join(h, " "), tailLost))
+							}
 						}
 					}
 					if depth == 0 {
